@@ -42,6 +42,7 @@ func (p *putBatchAct) doPutRequest(s *SerialDB) error {
 	wopt := &opt.WriteOptions{
 		Sync: true,
 	}
+	verifPoint("serial.beforeWrite")
 
 	return db.Write(p.batch.batch, wopt)
 }
